@@ -147,6 +147,7 @@ func callsReach(p *Prog, c ssa.CallInstruction, target *ssa.Function) bool {
 func c15(r *Report, s *Sem) {
 	p := r.P
 	a := s.anchors()
+	defer r.Import(s, "C04", "R1", "M", "a failed send does not wedge the channel: every Transport.Send made for a channel sits inside one critical section of the send mutex that is left on every path (released by defer or on each exit) — a mutex kept on the error path blocks every later operation for ever, whatever its context", 2)
 	defer r.Import(s, "C12", "R4", "W", "all TCP I/O goes through the context-aware wrapper: the encoder/decoder are built over the polling wrapper on every configuration (with or without a trace writer) and the raw connection's Read/Write are called by nothing else", 8)
 	defer r.Import(s, "C18", "R4", "A", "accepting honours cancellation, not only deadlines: every transport listener's Accept waits in a select with an arm on its context's Done channel", 1, "context arm")
 	K := r.Rule("K", "blocking-operation inventory: every channel send/receive, blocking select, sleep, raw connection I/O, TLS handshake and WebSocket I/O reachable from a context-taking operation (transport Send/Receive/SetEncryption, listener Accept, channel sends, command processing, both EstablishSession and FinishSession) is abortable by that context: K1 an arm of a select that also waits on ctx.Done(); K2 deadline-polled I/O in a loop that re-checks the context, with poll constant ≤ 5 s; K3 a wait for a helper goroutine just forced to fail by an immediate deadline on the same connection; K4 a send that cannot block (own buffered channel, one send per call); K5 listed with a reason", 15)
